@@ -238,7 +238,7 @@ def run(tier="quick", replay=None):
     FnCtx.summ = Summaries(prog)
     present = [e for e in ENTRIES if e in prog.fns]
     R.floor("R14", "front-end entry points", len(present), 16)
-    reach = prog.reachable_fns(present)
+    reach = prog.reachable_fns(present, callbacks=True)
     R.counts["reachable functions"] = len(reach)
 
     inv = defaultdict(int)
@@ -278,11 +278,15 @@ def run(tier="quick", replay=None):
             if t["k"] == "assert":
                 if t["msg"] == "BoundsCheck":
                     k = op_int(t["index"])
+                    if k is None and op_local(t["index"]) is not None:
+                        k = const_arith(ctx, op_local(t["index"]))   # `_7 = const 0; assert(Lt(_7, len))`
                     if k is None:
                         excluded["variable-index BoundsCheck"] += 1
                         continue
                     # the indexed place: len operand is Len/PtrMetadata of it, or a constant for arrays
                     n_const = op_int(t["len"])
+                    if n_const is None and op_local(t["len"]) is not None:
+                        n_const = const_arith(ctx, op_local(t["len"]))
                     lkey = ctx.ld.len_source(op_local(t["len"])) if op_local(t["len"]) is not None else None
                     desc = describe_place_key(f, lkey) if lkey else "array"
                     key = site_key(f, "bounds", "%s[%d]" % (desc, k))
@@ -406,6 +410,25 @@ def run(tier="quick", replay=None):
                 key = site_key(f, "panic", c.rsplit("::", 1)[-1])
                 settle(f, key, site, "panic", None, "%s contains an explicit panic (%s) reachable from a front end" % (f.path, c))
                 continue
+            if (t.get("callee_local") or t.get("target_local")) and FnCtx.summ is not None:
+                sm = FnCtx.summ.get(c)
+                if sm and sm[0] == "index" and sm[1] < len(t["args"]) and sm[3] < len(t["args"]):
+                    k = op_int(t["args"][sm[3]])
+                    if k is None and op_local(t["args"][sm[3]]) is not None:
+                        k = const_arith(ctx, op_local(t["args"][sm[3]]))
+                    if k is None:
+                        excluded["variable-index accessor call (%s)" % name] += 1
+                    else:
+                        rk = ctx.ld.key_of_operand(t["args"][sm[1]])
+                        rkey = (rk[0], rk[1] + tuple(sm[2])) if rk else None
+                        desc = describe_place_key(f, rkey)
+                        key = site_key(f, "accessor", "%s.%s(%d)" % (desc, name, k))
+                        m = ctx.ld.min_len_at_term(bb, rkey) if rkey else 0
+                        how = "length: min_len(%s)=%d > %d (indexing accessor %s)" % (desc, m, k, c.rsplit("::", 2)[-2] + "::" + name) if m > k else None
+                        settle(f, key, site, "accessor", how,
+                               "%s calls the indexing accessor %s(%d) on %s with no proof that it holds more than %d element(s): "
+                               "panics (index out of bounds) on short input" % (f.path, c, k, desc, k))
+                    continue
             if c.startswith("std::vec::Vec::<T, A>::") and name in ("remove", "swap_remove", "insert", "split_off", "drain") \
                     or (name in ("split_at", "split_at_mut") and ("slice" in c)):
                 k = op_int(t["args"][1]) if len(t["args"]) > 1 else None
